@@ -29,6 +29,16 @@ for k,v in a.items():
 json.dump({"Replace":b}, open(tmp+"/overlay.json","w"))
 PY
 fi
+if [ "$(basename $cmd)" = "vmapiter" ]; then
+  python3 tools/overlaygen_runtime.py >/dev/null || { echo "overlaygen failed"; exit 3; }
+  python3 - "$tmp" <<'PY'
+import json,sys
+tmp=sys.argv[1]
+a=json.load(open(tmp+"/overlay.json"))["Replace"]; b=json.load(open("/verif/.cache/overlay/mapiter/overlay.json"))["Replace"]
+a.update(b)
+json.dump({"Replace":a}, open(tmp+"/overlay.json","w"))
+PY
+fi
 go build -tags verif -overlay "$tmp/overlay.json" -o "$bin" "$cmd" 2>"$tmp/build.log" || { echo "BUILD FAILED"; tail -20 "$tmp/build.log"; exit 3; }
 mkdir -p "$tmp/root/evidence"; cp /verif/known_findings.jsonl "$tmp/root/" 2>/dev/null
 case "$(basename $cmd)" in vmc|vcoop|vevents|vmapiter) args="check $id";; *) args="";; esac
